@@ -251,7 +251,7 @@ static void apply_delivery(int id, int hit)
         /* several preemptions of the same victim in one instant are delivered as one PREEMPTED signal */
         for (int k = 0; k < nled; k++) if (led[k].tgt == id && led[k].kind == L_PREEMPT && led[k].due == led[hit].due) led[k].delivered = 1;
     }
-    if (led[hit].kind == L_INTR || led[hit].kind == L_PREEMPT) interrupt_clears(id);  /* documented: interrupt/preempt clears timers */
+    if (led[hit].kind == L_INTR) interrupt_clears(id);      /* the interrupt handler cancels whatever is still queued for the process when it is delivered */
     if (led[hit].kind == L_TIMER) {
         for (int t = 0; t < P[id].ntimers; t++) if (P[id].timers[t] == led[hit].handle) { P[id].timers[t] = P[id].timers[--P[id].ntimers]; break; }
     }
@@ -273,7 +273,7 @@ static void account_signal(int id, int64_t r, const char *unused)
         for (int c = 0; c < nc; c++) {
             /* events that would remain queued if candidate c is the one delivered */
             uint64_t n = 0;
-            int clears = (led[cand[c]].kind == L_INTR || led[cand[c]].kind == L_PREEMPT);
+            int clears = (led[cand[c]].kind == L_INTR);
             for (int k = 0; k < nled; k++) {
                 if (led[k].tgt != id || led[k].delivered || led[k].cancelled || k == cand[c]) continue;
                 if (clears && (led[k].kind == L_TIMER || led[k].kind == L_RESUME || led[k].kind == L_INTR)) continue;
@@ -311,6 +311,15 @@ static void after_block(int id)
  * a call that returns SUCCESS while a PREEMPTED notification issued to the process is still undelivered left it unaware */
 static void after_block_r(int id, int64_t r)
 {
+    /* known finding F-C05-a: the delivery of an interrupt cancels every event queued for the process, also the PREEMPTED
+     * wake-up of a preemption that happened in the same instant.  The tag singles out exactly that situation. */
+    int wiped = 0;
+    if (r != CMB_PROCESS_SUCCESS && r != CMB_PROCESS_PREEMPTED) {
+        for (int k = 0; k < nled; k++) {
+            if (led[k].tgt == id && led[k].kind == L_PREEMPT && !led[k].delivered && !led[k].cancelled && led[k].due == cmb_time()) wiped = 1;
+        }
+    }
+    sym_tag("preempt_wiped_by_interrupt", wiped);
     after_block(id);
     if (r == CMB_PROCESS_SUCCESS) {
         for (int k = 0; k < nled; k++) {
@@ -382,12 +391,12 @@ static void invariants(void)
             int culprit = 0;
             for (int j = 0; j < NPROC; j++) if (j != i && (P[j].in_ppre || P[j].ppre_time == cmb_time()) && P[j].prio > P[i].prio) culprit = 1;
             sym_assert(culprit, "pool units are only taken away by a preempt from a strictly higher priority process");
-            ledger_add(i, L_PREEMPT, CMB_PROCESS_PREEMPTED, cmb_time(), 0);
+            interrupt_clears(i); ledger_add(i, L_PREEMPT, CMB_PROCESS_PREEMPTED, cmb_time(), 0);
             P[i].pool_held = 0;
         } else sym_assert(h == P[i].pool_held, "pool held_by_process agrees with the shadow holding");
         if (P[i].waiting == W_PACQ && h == 0 && P[i].pool_held > 0) {
             /* a blocked acquirer that held something before its call and now holds nothing was preempted */
-            ledger_add(i, L_PREEMPT, CMB_PROCESS_PREEMPTED, cmb_time(), 0);
+            interrupt_clears(i); ledger_add(i, L_PREEMPT, CMB_PROCESS_PREEMPTED, cmb_time(), 0);
             P[i].pool_held = 0;
         }
         sum += h;
@@ -573,7 +582,7 @@ static void step(int id, int op)
             if (op == OP_PREEMPT && prev >= 0 && owner == prev && cmb_time() == now) {
                 /* took it from the holder: only allowed from an equal or lower priority (documented >=) */
                 sym_assert(P[id].prio >= P[prev].prio, "preempt only takes the resource from a holder of equal or lower priority");
-                ledger_add(prev, L_PREEMPT, CMB_PROCESS_PREEMPTED, now, 0);
+                interrupt_clears(prev); ledger_add(prev, L_PREEMPT, CMB_PROCESS_PREEMPTED, now, 0);
                 owner = -1;
             }
             sym_assert(owner == -1, "acquire/preempt succeeds only while no other process holds the resource");
@@ -611,7 +620,7 @@ static void step(int id, int op)
                     sym_assert(op == OP_PPRE, "only a preempt takes units from another process");
                     sym_assert(P[i].prio < P[id].prio, "pool preempt only takes from strictly lower priority processes");
                     P[i].pool_held = 0;
-                    ledger_add(i, L_PREEMPT, CMB_PROCESS_PREEMPTED, cmb_time(), 0);
+                    interrupt_clears(i); ledger_add(i, L_PREEMPT, CMB_PROCESS_PREEMPTED, cmb_time(), 0);
                 }
             }
         } else {
